@@ -116,7 +116,7 @@ func main() {
 		r := vh.NewRand(o.Seed)
 		fams := []string{"basic", "values", "origins", "keys-element", "deletes", "multi"}
 		if o.Thorough() {
-			for rep := 0; rep < 8; rep++ {
+			for rep := 0; rep < 20; rep++ {
 				for _, f := range append(fams, "undecodable", "nonpf") {
 					cases = append(cases, genScenario(r.Fork(), f, true))
 				}
@@ -125,12 +125,14 @@ func main() {
 				cases = append(cases, genScenario(r.Fork(), f, true))
 			}
 		} else {
-			for _, f := range fams {
+			for rep := 0; rep < 2; rep++ {
+				for _, f := range fams {
+					cases = append(cases, genScenario(r.Fork(), f, false))
+				}
+			}
+			for _, f := range []string{"undecodable", "nonpf"} {
 				cases = append(cases, genScenario(r.Fork(), f, false))
 			}
-			// the two remaining families alternate with the seed
-			extra := []string{"undecodable", "nonpf"}
-			cases = append(cases, genScenario(r.Fork(), extra[int(o.Seed)%2], false))
 		}
 	}
 
